@@ -13,7 +13,7 @@ GROUP = {
         ("text", "chrono.rs"),
         ("text", "camt_stub.rs"),
         U("OwnedAmount(type)", AM, [r"pub struct OwnedAmount\b"]),
-        ("raw", "pub mod xmlnode {\nuse super::*;\npub use super::xmlnode_stub::{DateHolder, Entry, CreditDebitIndicator, References, TransactionDetails, Statement, Balance, BalanceType, CodeOrProperty, BalanceCodeValue};\n"),
+        ("raw", "pub mod xmlnode {\nuse super::*;\npub use super::xmlnode_stub::{DateHolder, Entry, CreditDebitIndicator, References, TransactionDetails, Statement, Balance, BalanceType, CodeOrProperty, BalanceCodeValue, Charges, ChargeRecord};\n"),
         U("xmlnode::CreditOrDebit", XN, [r"pub enum CreditOrDebit\b"], derive="Clone, Copy"),
         U("xmlnode::Amount", XN, [r"pub struct Amount\b"]),
         U("xmlnode::BalanceCode", XN, [r"pub enum BalanceCode\b"], derive="PartialEq, Eq, Clone, Copy"),
@@ -172,6 +172,57 @@ pub open spec fn first_with_code(bals: Seq<xmlnode::Balance>, code: xmlnode::Bal
 """,
           loops={0: """
         invariant first_with_code(stmt.balance@, code, 0) == first_with_code(stmt.balance@, code, i__ as int),
+"""}),
+        # ---- charges: add_charges (whole function) and the two Txn methods it ends in
+        ("raw", """impl vstd::std_specs::ops::NegSpecImpl for OwnedAmount {
+    open spec fn obeys_neg_spec() -> bool { false }
+    open spec fn neg_req(self) -> bool { true }
+    open spec fn neg_spec(self) -> OwnedAmount { arbitrary() }
+}
+"""),
+        U("Neg for OwnedAmount", AM, [r"impl std::ops::Neg for OwnedAmount\b"], fn="neg", rewrites=[RET()], opaque=True, no_canary=True,
+          contract="""
+        ensures r.commodity == self.commodity, r.value.val() == -self.value.val(),   // proved in group csvsign
+"""),
+        U("Txn::transferred_amount", SE, [r"impl Txn\b", r"pub fn transferred_amount\b"], fn="transferred_amount", wrap=("impl Txn {", "}"), rewrites=[RET()],
+          contract="""
+        ensures *final(self) == *final(r), *r == (Txn { transferred_amount: Some(amount), ..*old(self) }),
+"""),
+        U("Txn::add_charge", SE, [r"impl Txn\b", r"pub fn add_charge<'a>"], fn="add_charge", wrap=("impl Txn {", "}"),
+          rewrites=[RET(), ("R24-std-model", "payee: payee.to_string(),", "payee: str_to_string(payee),", 1)],
+          contract="""
+        ensures *final(self) == *final(r), r.charges@.len() == old(self).charges@.len() + 1, r.charges@.last().amount == amount,
+            r.charges@.subrange(0, old(self).charges@.len() as int) == old(self).charges@,
+            r.amount == old(self).amount, r.transferred_amount == old(self).transferred_amount, r.balance == old(self).balance, r.date == old(self).date,   // @Txn.add_charge.a_charge_included_in_the_amount_changes_nothing_else
+"""),
+        U("Txn::try_add_charge_not_included", SE, [r"impl Txn\b", r"pub fn try_add_charge_not_included<'a>"], fn="try_add_charge_not_included", wrap=("impl Txn {", "}"),
+          rewrites=[RET(), ("R24-std-model", "payee: payee.to_string(),", "payee: str_to_string(payee),", 1),
+                    ("R24-std-model", "if amount.commodity != self.amount.commodity {", "if string_ne(&amount.commodity, &self.amount.commodity) {", 1),
+                    ("R24-std-model", "commodity: amount.commodity.clone(),", "commodity: string_clone(&amount.commodity),", 1)],
+          contract="""
+        ensures
+            // a charge that is NOT included in the entry amount: what was transferred is the amount plus the charge, in the same commodity
+            (old(self).amount.commodity@ != amount.commodity@ || old(self).transferred_amount is Some) ==> r is Err,   // @Txn.try_add_charge_not_included.other_commodity_or_second_transfer_rejected
+            r is Err ==> *final(self) == *old(self),   // @Txn.try_add_charge_not_included.rejected_charge_changes_nothing
+            r matches Ok(t) ==> *final(self) == *final(t) && t.charges@.len() == old(self).charges@.len() + 1 && t.charges@.last().amount == amount
+                && t.amount == old(self).amount && t.balance == old(self).balance && t.date == old(self).date
+                && (t.transferred_amount matches Some(x) && x.value.val() == old(self).amount.value.val() + amount.value.val() && x.commodity@ == amount.commodity@),   // @Txn.try_add_charge_not_included.transferred_is_amount_plus_charge
+"""),
+        U("add_charges", CA, [r"fn add_charges\b"], fn="add_charges", wrap=("#[verifier::loop_isolation(false)]", ""),
+          rewrites=[RET(), ("R1-path", "txn: &mut single_entry::Txn,", "txn: &mut Txn,", 1), ("R1-path", "charges: &Option<xmlnode::Charges>,", "charges: &Option<xmlnode::Charges>,", 1),
+                    # the index is advanced right after the element is taken, so that the body's `continue` behaves as in the `for` loop
+                    ("R6d-for-ref-vec-with-continue", "for cr in &charges.records {", "let mut ci__: usize = 0; while ci__ < charges.records.len() { let cr = &charges.records[ci__]; ci__ += 1;", 1),
+                    ("R11-ok-or", "re:let payee = config\\.operator\\.as_ref\\(\\)\\.ok_or\\(ImportError::InvalidConfig\\([^;]*\\)\\)\\?;",
+                     "let payee = match config.operator.as_ref() { Some(p__) => p__, None => { return Err(ImportError::InvalidConfig(\"config should have operator to have charge\")); } };", 1)],
+          contract="""
+        ensures
+            // C18: the account amount, the date and the balance assertion of the transaction are never touched by its charges
+            final(txn).amount == old(txn).amount, final(txn).date == old(txn).date, final(txn).balance == old(txn).balance,   // @add_charges.charges_never_change_the_account_posting
+            charges is None ==> (r is Ok && *final(txn) == *old(txn)),
+""",
+          loops={0: """
+        invariant ci__ <= charges.records@.len(), txn.amount == old(txn).amount, txn.date == old(txn).date, txn.balance == old(txn).balance,
+        decreases charges.records@.len() - ci__,
 """}),
     ],
 }
